@@ -12,7 +12,7 @@ iterative lookups (`FindNodeContext`, `GetRecordContext`, `GetProvidersContext`,
 queries next and when it finishes are choices of the environment (labels of the transition system),
 constrained only by what `QueryEngine`'s API guarantees.
 
-Maps are flat association lists: `pending_dials : HashMap<PeerId, Vec<PeerAction>>` is the list of
+Maps are flat association lists: removal of a key is `filter`; `pending_dials : HashMap<PeerId, Vec<PeerAction>>` is the list of
 `(peer, action)` pairs in push order, `peers[p].pending_actions` is `ctx` (which peers have a
 context) plus the list of `(peer, substream, action)` triples.
 
@@ -68,11 +68,11 @@ def Tracker.new (peers : List Peer) (quorum : Quorum) : Tracker :=
 
 def Tracker.sendSuccess (t : Tracker) (p : Peer) : Tracker :=
   if p ∈ t.pending then
-    { t with pending := t.pending.erase p, nSucceeded := t.nSucceeded + 1, counted := p :: t.counted }
+    { t with pending := t.pending.filter (· != p), nSucceeded := t.nSucceeded + 1, counted := p :: t.counted }
   else t
 
 def Tracker.sendFailure (t : Tracker) (p : Peer) : Tracker :=
-  if p ∈ t.pending then { t with pending := t.pending.erase p } else t
+  if p ∈ t.pending then { t with pending := t.pending.filter (· != p) } else t
 
 def Tracker.isFinished (t : Tracker) : Bool := t.pending.isEmpty
 def Tracker.isSucceeded (t : Tracker) : Bool := decide (t.peersToSucceed ≤ t.nSucceeded)
@@ -115,7 +115,7 @@ def removeQ (e : Engine) (q : Qid) : Engine := e.filter (fun x => x.id != q)
 /-- `register_response` / `register_response_failure`: a lookup stops waiting for the peer; the
 tracker ignores both. -/
 def QState.respDone (p : Peer) : QState → QState
-  | .lookup k qu ps => .lookup k qu (ps.erase p)
+  | .lookup k qu ps => .lookup k qu (ps.filter (· != p))
   | st => st
 
 /-- `register_send_failure`: ignored by lookups. -/
@@ -223,7 +223,7 @@ def disconnectPeer (s : State) (p : Peer) (query : Option Qid) : State :=
         (match query with
          | some q => regPeerFail s.engine q p
          | none => s.engine))
-    ctx := s.ctx.erase p
+    ctx := s.ctx.filter (· != p)
     actions := s.actions.filter (fun a => a.1 != p) }
 
 /-! ## `open_substream_or_dial` -/
@@ -381,19 +381,19 @@ connection; a further connection of a connected peer is swallowed as secondary).
 def established (s : State) (p : Peer) (outs : List Bool) : State :=
   if p ∈ s.connected then s
   else onConnectionEstablished
-        { s with connected := s.connected ++ [p], dialing := s.dialing.erase p } p outs
+        { s with connected := s.connected ++ [p], dialing := s.dialing.filter (· != p) } p outs
 
 /-- `TransportEvent::ConnectionClosed`. -/
 def closed (s : State) (p : Peer) : State :=
   if p ∈ s.connected then
-    disconnectPeer { s with connected := s.connected.erase p
+    disconnectPeer { s with connected := s.connected.filter (· != p)
                             opening := s.opening.filter (fun o => o.2 != p) } p none
   else s
 
 /-- `TransportEvent::DialFailure` → `on_dial_failure`. -/
 def dialFailure (s : State) (p : Peer) : State :=
   { s with
-    dialing := if p ∈ s.connected then s.dialing else s.dialing.erase p
+    dialing := if p ∈ s.connected then s.dialing else s.dialing.filter (· != p)
     dials := s.dials.filter (fun d => d.1 != p)
     engine := (dialActions s p).foldl (fun e a => regRespDone (regSendFail e a.q p) a.q p) s.engine }
 
@@ -524,5 +524,35 @@ inductive Reachable : State → Prop
 /-- The environment has discharged every obligation and the engine has been drained. -/
 def Quiescent (s : State) : Prop :=
   s.dialing = [] ∧ s.opening = [] ∧ s.futs = [] ∧ engineIdle s.engine = true
+
+/-! ## The ownership invariant (executable form) -/
+
+/-- Which pending actions belong to which phase of a query. -/
+def matchA : QState → AKind → Bool
+  | .lookup .., .findNode => true
+  | .tracker .., .putValue => true
+  | .tracker .., .addProvider => true
+  | _, _ => false
+
+def matchF : QState → FKind → Bool
+  | .lookup .., .reqResp => true
+  | .tracker .., .putEat => true
+  | .tracker .., .sendMsg => true
+  | _, _ => false
+
+/-- The peer `p` that query `x` waits for is owned by an outstanding obligation of the environment:
+a pending dial action whose dial is not concluded, a pending substream action whose open is not
+answered (and is tracked in `pending_substreams`), or an executor future. -/
+def ownedB (s : State) (x : Query) (p : Peer) : Bool :=
+  s.dials.any (fun d => d.1 == p && d.2.q == x.id && matchA x.st d.2.kind && s.dialing.contains p) ||
+  s.actions.any (fun a => a.1 == p && a.2.2.q == x.id && matchA x.st a.2.2.kind &&
+    s.opening.contains (a.2.1, p) && s.pendingSubs.contains (a.2.1, p) && s.ctx.contains p) ||
+  s.futs.any (fun f => f.peer == p && f.q == x.id && matchF x.st f.kind)
+
+def waitingOwnedB (s : State) : Bool :=
+  s.engine.all fun x => x.st.pending.all fun p => ownedB s x p
+
+/-- Every peer a live query is waiting for is owned by an outstanding obligation. -/
+def WaitingOwned (s : State) : Prop := waitingOwnedB s = true
 
 end Litep2pVerif.Kad.Coordinator
